@@ -64,8 +64,9 @@ Modules == {KindModules[i][2] : i \in DOMAIN KindModules}
 HClasses == {"m10", "m50", "m300", "m303", "other"}
 HClassOf(h) == IF h % 300 = 0 THEN "m300" ELSE IF h % 303 = 0 THEN "m303" ELSE IF h % 50 = 0 THEN "m50"
                ELSE IF h % 10 = 0 THEN "m10" ELSE "other"
-\* the height at which the drivers place a hostile transaction of a class (world base 240)
-HeightOf(c) == CASE c = "m50" -> 250 [] c = "other" -> 253 [] c = "m10" -> 260 [] c = "m300" -> 300 [] c = "m303" -> 303
+\* the height at which the drivers place a hostile transaction of a class (world base 280): from 290 / 293 / 300 the
+\* heights 300 (= 0 mod 10, 50, 300) and 303 are a few blocks away; 303 and 350 are followed by 310 / 350 and 360 / 400
+HeightOf(c) == CASE c = "m10" -> 290 [] c = "other" -> 293 [] c = "m300" -> 300 [] c = "m303" -> 303 [] c = "m50" -> 350
 
 \* ---- abstract summary of what is queued -------------------------------------------------------------
 \* stage of the oldest fee-paying cross-chain message: none -> fresh (queued, assigned) -> signed -> elected (gas
